@@ -11,6 +11,7 @@ import NemoVerif.Models.PipelineCall
    response {"turns": [{"in_calls": [[id, text]..], "user_msg": s|null, "out_calls": [[id, text]..], "uttered": s|null}]} -/
 /- `C02.calls`: the call-level model (`Models/PipelineCall.lean`) - conversations in which calls end by a propagated failure.
    request  as `C01.conv`; a turn may carry "llm_x": n | null, "cancel": n | null (verdict "e" = the rail's LLM call fails);
+            "live": b (2.x: the caller keeps one live State object and hands the object to every call),
             "remember": b (default false: the code as it is; true = the instance remembers the live object of the last returned state)
    response {"turns": [{"steps", "reply", "hist" (the state handed back, null if the call raised), "left" (2.x: the object as the call left it)}]} -/
 namespace NemoVerif.Drive.C02
@@ -64,6 +65,12 @@ def handle (op : String) (j : Json) : Except String Json := do
           ("hist", match h with
             | some h => Json.mkObj [("skip", .bool h.skip), ("texts", Json.arr (h.texts.map Json.str).toArray)]
             | none => .null)]).toArray)])
+    else if C01.getBoolD j "live" false then
+      -- the caller keeps ONE live State object and hands it to every call
+      let rs := PipelineCall.convLiveV2 (C01.getBoolD j "user_reset" Generated.C01.v2FlagResetOnUserMessage) cfg initV2 (turns.zip faults)
+      pure (Json.mkObj [("turns", Json.arr (rs.map fun (tr, rep, h) =>
+        Json.mkObj [("steps", Json.arr (tr.map C01.stepToJson).toArray), ("reply", C01.replyToJson rep),
+          ("hist", histV2ToJson h), ("left", histV2ToJson h)]).toArray)])
     else
       let rs := PipelineCall.convCallsV2 (C01.getBoolD j "remember" false) cfg none initV2 (turns.zip faults)
       pure (Json.mkObj [("turns", Json.arr (rs.map fun o =>
